@@ -1,10 +1,14 @@
 //! Protocol drivers (B1 schedule replay, B2 trace recording) — DESIGN.md §7.2.
+mod c10;
+mod c15;
 mod c16;
 
 fn main() {
     let a: Vec<String> = std::env::args().collect();
     let cmd = a.get(1).map(|s| s.as_str()).unwrap_or("");
     match cmd {
+        "c10" => c10::main(),
+        "c15" => c15::main(),
         "c16" => c16::main(),
         _ => {
             eprintln!("usage: vproto <c16|...> [options]");
